@@ -127,6 +127,19 @@ def check_inject(case, ref, builders):
         if type(e2) is not type(first) or str(e2) != str(first):
             return ("retry.different-error", f"retry reports {type(e2).__name__}: {str(e2)[-80:]!r} instead of the "
                                              f"original {str(first)[-60:]!r}: {where}", {"case": repr(case)})
+    # (a2) the designer edits the offending module and retries: a half-rewritten module is still never exported
+    try:
+        target.add(h.Signal(name="late_edit_sig"))
+        edited = True
+    except Exception:
+        edited = False        # refusing the edit is fine too
+    if edited:
+        try:
+            h.to_proto(top)
+            return ("edit-retry.returns-package", f"after an edit of the half-rewritten module the design was "
+                                                  f"exported: {where}", {"case": repr(case)})
+        except Exception:
+            pass
     # (b) an unrelated design equals the fresh-process result
     try:
         got = serialize(h.to_proto(builders[other]()))
@@ -281,6 +294,9 @@ def run(ctx):
     eng2 = mk_engine(contracts=cg.CONTRACTS, class_attrs=cg.CLASS_ATTRS, field_classes=cg.FIELD_CLASSES,
                      schema_extra=cg.SCHEMA_EXTRA)
     ctx.verify(eng2, cg.VERIFY, min_obligations={"hdl21.generator:run": 10})
+    # the poison flag must survive designer edits: module._add's frame (nothing but the namespace views changes)
+    from contracts import c_module as cm
+    ctx.verify(cm.engine(), [cm.CONTRACTS[0]], min_obligations={cm.CONTRACTS[0].key: 15})
     bad = ce.audit_cache_ownership()
     ctx.obligations += 1
     if bad:
